@@ -534,6 +534,29 @@ def run(ck):
               "is written unconditionally (an empty reason phrase still needs it)",
               key_pred=lambda k: k.startswith("server-writes"), min_instances=2)
 
+    # ---------------- R1 clause: a refusal comes before the first byte, never after it ----------------
+    for wname, wf in sorted(writers.items()):
+        late = []
+        refuses = lambda e: (e["k"] == "call" and strip_tmpl(e.get("callee") or "") == "Pistache::Async::Promise::rejected") or e["k"] == "throw"
+        is_aw = lambda e: e["k"] == "call" and e.base_callee() == "Pistache::Tcp::Transport::asyncWrite"
+        for e in [x for x in wf.events(("call", "throw")) if refuses(x)]:
+            if any(any(y is e for y in cfg.events_after(wf, a_)) for a_ in wf.events("call") if is_aw(a_)):
+                late.append(e)
+        # ... nor from a continuation that runs when part of the message has already been written
+        for lf in prog.lambdas_in(wf):
+            rj = [x for x in lf.events(("call", "throw")) if refuses(x)]
+            # (a rejection handler -- it takes the std::exception_ptr of a write that failed -- passes a failure on, it refuses nothing)
+            if not rj or any("exception_ptr" in (p_.get("type") or "") for p_ in lf.params):
+                continue
+            for t_ in wf.events("call"):
+                if (t_.get("callee") or "").rsplit("::", 1)[-1] == "then" and any((a_.get("lam") or "").split("#in:")[0] == lf.id.split("#in:")[0] for a_ in t_.get("args", [])):
+                    if "asyncWrite" in ((t_.get("recv") or {}).get("t") or t_.get("t") or ""):
+                        late.append(rj[0])
+        ck.ob("C05-R1", "%s/refusal-only-before-the-first-write" % wname, not late, (late[0].loc if late else wf.loc), wf,
+              "every rejected promise / throw of the serialiser lies before anything is handed to asyncWrite" if not late else
+              "the refusal at line %s comes after part of the message was handed to asyncWrite: the peer has the head (with its Content-Length) "
+              "and never gets the body it announces" % late[0].get("l"))
+
     # ---------------- R7: a writer leaves the caller's stream as it found it ----------------
     ck.rule("C05-R7", "C must-pass-through (sticky stream state)",
             "a library function that writes into a std::ostream it was handed (header, cookie, date, media-type and status-line writers) "
